@@ -1,8 +1,188 @@
-(* C18 — property theorems (thin stage) *)
+(* C18 — property theorems.  The definitions (issue, present, choose, verify, reveal, holder_parse) are the ones
+   Corr.check_case evaluates against the real issuer / holder / verifier on every run.
+   Digest strings are symbolic terms [VDig alg e salt name v] (ideal hash + injective JSON/base64 text):
+   "the issuer committed to d" = the digest string of d occurs in the signed payload (possibly inside the
+   preimage of another committed digest string): [occurs]. *)
 From Coq Require Import List String ZArith NArith Bool.
 Import ListNotations.
-From VF Require Import C18.Model.
+From VF Require Import C18.Model C18.Proofs C18.Corr.
+Open Scope string_scope.
+Open Scope list_scope.
 
-Theorem rejects_duplicate_placeholder : forall vo p, nodupd (p_discs p) = false -> is_ok (verify vo p) = false.
-Proof. intros vo p H. unfold verify. destruct (p_sig_ok p); cbn; [rewrite H|]; reflexivity. Qed.
-Print Assumptions rejects_duplicate_placeholder.
+(* ---- only issued disclosures are accepted ---- *)
+
+(* FOREIGN / ALTERED: whatever the verifier accepts, the signed payload commits to every presented disclosure:
+   the hash of its very text occurs in the payload (or in the text of another committed disclosure). *)
+Theorem accepted_disclosures_are_committed : forall vo p out,
+  verify vo p = Ok out ->
+  exists a, get_alg (p_payload p) = Ok a /\ forall d, In d (p_discs p) -> occurs (digest a d) (p_payload p).
+Proof. exact accept_committed. Qed.
+Print Assumptions accepted_disclosures_are_committed.
+
+Theorem rejects_uncommitted : forall vo p a d,
+  get_alg (p_payload p) = Ok a -> In d (p_discs p) -> ~ occurs (digest a d) (p_payload p) ->
+  is_ok (verify vo p) = false.
+Proof.
+  intros vo p a d Ha Hd Hn. destruct (verify vo p) eqn:E; try reflexivity.
+  apply accept_committed in E as (a' & Ha' & H). rewrite Ha in Ha'. inversion Ha'; subst. elim Hn. apply H; assumption.
+Qed.
+Print Assumptions rejects_uncommitted.
+
+(* an altered disclosure (any change of arity, salt, member name or value, or another text of the same JSON,
+   which the harness gives another salt symbol) has another digest: a commitment to d is none to d' *)
+Theorem altered_has_other_digest : forall a d d', d <> d' -> digest a d <> digest a d'.
+Proof. intros a d d' Hne He. apply Hne. eapply digest_inj; eassumption. Qed.
+Print Assumptions altered_has_other_digest.
+
+(* with the issuer's commitments spelled out: if the digest strings of the payload are those of the set I of
+   issued disclosures, every presentation containing a disclosure outside I is rejected *)
+Theorem rejects_unissued : forall vo p a I d,
+  get_alg (p_payload p) = Ok a ->
+  (forall g, occurs g (p_payload p) -> exists d0, In d0 I /\ g = digest a d0) ->
+  In d (p_discs p) -> ~ In d I -> is_ok (verify vo p) = false.
+Proof.
+  intros vo p a I d Ha HI Hd Hn. eapply rejects_uncommitted; try eassumption.
+  intro Ho. apply HI in Ho as (d0 & Hd0 & He). apply digest_inj in He. subst. contradiction.
+Qed.
+Print Assumptions rejects_unissued.
+
+(* DUPLICATED *)
+Theorem rejects_duplicated : forall vo p, ~ NoDup (p_discs p) -> is_ok (verify vo p) = false.
+Proof. exact reject_duplicate. Qed.
+Print Assumptions rejects_duplicated.
+
+(* each committed digest is met once: a digest string placed twice in the payload is refused as well *)
+Theorem accepted_digests_met_once : forall vo p out,
+  verify vo p = Ok out ->
+  exists a, get_alg (p_payload p) = Ok a /\ NoDup (collect (map (digest a) (p_discs p)) 0 (p_payload p)).
+Proof.
+  intros vo p out H. apply verify_ok_inv in H as (_ & _ & Hv & _).
+  apply verify_disclosures_inv in Hv as (a & Ha & _ & Hn & _). exists a; split; assumption.
+Qed.
+Print Assumptions accepted_digests_met_once.
+
+(* not a disclosure at all (not base64 / not a JSON array / fewer than two elements / salt or name no string) *)
+Theorem rejects_malformed : forall vo p d, In d (p_discs p) -> (d_e d < 2)%N -> is_ok (verify vo p) = false.
+Proof. exact reject_malformed. Qed.
+Print Assumptions rejects_malformed.
+
+Theorem rejects_bad_issuer_signature : forall vo p, p_sig_ok p = false -> is_ok (verify vo p) = false.
+Proof. exact reject_bad_signature. Qed.
+Print Assumptions rejects_bad_issuer_signature.
+
+(* ---- holder binding ---- *)
+Theorem binding_checked : forall vo p out,
+  verify vo p = Ok out ->
+  match p_hb p with
+  | None => vo_required vo = false
+  | Some h =>
+      get_cnf_key (p_payload p) = Ok (hb_key h) /\ hb_ok h = true /\
+      (vo_nonce vo = "" \/ vo_nonce vo = hb_nonce h) /\ (vo_aud vo = "" \/ vo_aud vo = hb_aud h)
+  end.
+Proof. exact binding_inv. Qed.
+Print Assumptions binding_checked.
+
+Theorem binding_required : forall vo p,
+  vo_required vo = true ->
+  (p_hb p = None \/
+   exists h, p_hb p = Some h /\
+     (get_cnf_key (p_payload p) <> Ok (hb_key h)                       (* no cnf, or signed with another key *)
+      \/ (vo_nonce vo <> "" /\ vo_nonce vo <> hb_nonce h)               (* other nonce *)
+      \/ (vo_aud vo <> "" /\ vo_aud vo <> hb_aud h))) ->                (* other audience *)
+  is_ok (verify vo p) = false.
+Proof.
+  intros vo p Hr Hbad. destruct (verify vo p) eqn:E; try reflexivity.
+  apply binding_inv in E. destruct Hbad as [Hn|(h & Hh & Hbad)].
+  - rewrite Hn in E. congruence.
+  - rewrite Hh in E. destruct E as (Hk & _ & Hno & Hau).
+    destruct Hbad as [Hb|[[Hb1 Hb2]|[Hb1 Hb2]]]; [contradiction| destruct Hno; contradiction | destruct Hau; contradiction].
+Qed.
+Print Assumptions binding_required.
+
+(* a binding that is present is checked even when none is required *)
+Theorem binding_wrong_key_rejected : forall vo p h k,
+  p_hb p = Some h -> get_cnf_key (p_payload p) = Ok k -> k <> hb_key h -> is_ok (verify vo p) = false.
+Proof.
+  intros vo p h k Hh Hk Hne. destruct (verify vo p) eqn:E; try reflexivity.
+  apply binding_inv in E. rewrite Hh in E. destruct E as (Hk' & _). rewrite Hk in Hk'. inversion Hk'. contradiction.
+Qed.
+Print Assumptions binding_wrong_key_rejected.
+
+(* ---- exactly the visible and the chosen claims ----
+   FULL STATEMENT (disclose_exact): for all claims, options and parent-closed selections sel,
+     verify (present (choose sel (issue claims))) = Ok (reveal sel claims).
+   It is REFUTED for the code as it is (known findings, pinned by the repository's own tests):
+   (1) a visible member whose issued value is null is dropped; (2) an array none of whose selectively
+   disclosable elements is chosen is output as absent instead of []. *)
+Definition flow (o : iopts) (claims : list (string * val)) (sel : list path) (vo : vopts) (hb : option hbjwt) : res val :=
+  bind (issue o claims) (fun '(payload, ds) =>
+  bind (present payload ds (choose sel ds) hb) (fun p => verify vo p)).
+
+Definition o2 := {| o_v5 := false; o_alg := 256; o_structured := false; o_decoys := 0; o_nonsd := [[SKey "a"]];
+                    o_always := []; o_recursive := []; o_iss := "iss"; o_cnf := None |}.
+Definition o5 := {| o_v5 := true; o_alg := 384; o_structured := true; o_decoys := 0; o_nonsd := [];
+                    o_always := []; o_recursive := [[SKey "addr"]]; o_iss := "iss"; o_cnf := Some 1%Z |}.
+Definition vo0 := {| vo_required := false; vo_nonce := ""; vo_aud := "" |}.
+
+Theorem disclose_exact_refuted :
+  (exists o claims sel out, flow o claims sel vo0 None = Ok out /\ equiv out (reveal o sel claims) = false) /\
+  (exists o claims sel out, o_v5 o = true /\ flow o claims sel vo0 None = Ok out /\ equiv out (reveal o sel claims) = false).
+Proof.
+  split.
+  - exists o2, [("a", VNull); ("b", VStr "x")], [[SKey "b"]]. eexists. split; vm_compute; reflexivity.
+  - exists o5, [("l", VArr [VNum 1; VNum 2]); ("b", VStr "x")], [[SKey "b"]]. eexists. split; [reflexivity|]. split; vm_compute; reflexivity.
+Qed.
+Print Assumptions disclose_exact_refuted.
+
+(* what the issuer emits is accepted by the holder: REFUTED for v5 with decoy digests (the decoy salts are put
+   into the disclosure list; known finding), while the same claims without decoys, and v2 with decoys, parse *)
+Definition issue_parse (o : iopts) (claims : list (string * val)) : res (list (string * val)) :=
+  bind (issue o claims) (fun '(payload, ds) => holder_parse payload ds).
+
+Theorem issue_parseable_refuted :
+  let o d v5 := {| o_v5 := v5; o_alg := 256; o_structured := false; o_decoys := d; o_nonsd := [];
+                   o_always := []; o_recursive := []; o_iss := "iss"; o_cnf := None |} in
+  let claims := [("d", VStr "v")] in
+  is_ok (issue_parse (o 1%nat true) claims) = false /\
+  is_ok (issue_parse (o 0%nat true) claims) = true /\
+  is_ok (issue_parse (o 1%nat false) claims) = true.
+Proof. vm_compute. repeat split. Qed.
+Print Assumptions issue_parseable_refuted.
+
+(* ---- non-vacuity: concrete flows through the same functions ---- *)
+Definition claims5 : list (string * val) :=
+  [("name", VStr "Ann"); ("addr", VObj [("city", VStr "X"); ("zip", VNum 7)]); ("langs", VArr [VStr "de"; VStr "en"])].
+
+(* recursive object + array elements, holder binding required and right: output = visible + chosen *)
+Example disclose_exact_example :
+  let sel := [[SKey "addr"]; [SKey "addr"; SKey "city"]; [SKey "langs"; SIdx 1]] in
+  let hb := Some {| hb_key := 1; hb_nonce := "n"; hb_aud := "v"; hb_ok := true |} in
+  let vo := {| vo_required := true; vo_nonce := "n"; vo_aud := "v" |} in
+  match flow o5 claims5 sel vo hb with
+  | Ok out => equiv out (reveal o5 sel claims5) = true /\
+              equiv out (VObj [("iss", VStr "iss"); ("cnf", VObj [("jwk", VNum 1)]);
+                               ("addr", VObj [("city", VStr "X")]); ("langs", VArr [VStr "en"])]) = true
+  | _ => False
+  end.
+Proof. vm_compute. split; reflexivity. Qed.
+
+(* the same SD-JWT: a child without its parent, a foreign, a duplicated, an altered disclosure, a wrong nonce *)
+Example rejections_example :
+  match issue o5 claims5 with
+  | Ok (payload, ds) =>
+      let pres l hb := {| p_sig_ok := true; p_payload := payload; p_discs := l; p_hb := hb |} in
+      let city := {| d_e := 3; d_salt := [SKey "addr"; SKey "city"]; d_name := "city"; d_val := VStr "X" |} in
+      let forged := {| d_e := 3; d_salt := [SKey "addr"; SKey "city"]; d_name := "city"; d_val := VStr "Y" |} in
+      let addr := choose [[SKey "addr"]] ds in
+      memd city ds = true /\
+      is_ok (verify vo0 (pres (addr ++ [city]) None)) = true /\
+      is_ok (verify vo0 (pres [city] None)) = false /\
+      is_ok (verify vo0 (pres (addr ++ [forged]) None)) = false /\
+      is_ok (verify vo0 (pres (addr ++ [city; city]) None)) = false /\
+      is_ok (verify {| vo_required := true; vo_nonce := "n"; vo_aud := "" |}
+                    (pres addr (Some {| hb_key := 1; hb_nonce := "m"; hb_aud := ""; hb_ok := true |}))) = false /\
+      is_ok (verify {| vo_required := true; vo_nonce := "n"; vo_aud := "" |}
+                    (pres addr (Some {| hb_key := 1; hb_nonce := "n"; hb_aud := ""; hb_ok := true |}))) = true
+  | _ => False
+  end.
+Proof. vm_compute. repeat split. Qed.
